@@ -131,9 +131,10 @@ def gen_case(rng, tier, heavy):
 
 class P(Property):
     id = 'C01'
-    gen_modules = ['gen_varint', 'gen_codes', 'gen_headers', 'gen_datagram', 'gen_writers']
+    gen_modules = ['gen_varint', 'gen_codes', 'gen_headers', 'gen_datagram', 'gen_writers', 'gen_frames', 'gen_reqstream',
+                   'gen_static', 'gen_qstateless', 'gen_prefixint', 'gen_huffman', 'gen_huffman_enc']
     properties_v = 'Properties/C01.v'
-    model_targets = ['Model/EndToEndH3.vo', 'Spec/EndToEndSpec.vo']
+    model_targets = ['Model/EndToEndH3.vo', 'Model/EndToEndRef.vo', 'Spec/EndToEndSpec.vo']
     extract_v = 'Extract/ExtractC01.v'
     driver_ml = 'C01_driver.ml'
     harness_bin = 'c01'
@@ -145,21 +146,20 @@ class P(Property):
             '(uniform, weighted, strict-priority over client tasks, server tasks, deliveries per direction and stream, '
             'grants) x whole / split request streams x grease on/off. non-trivial = distinct cases whose exchange completed '
             'and carried at least one field, body byte or trailer in some direction')
-    partial_note = ('C01 is a composition.  Closed and pinned: the generic composition theorem; the header-mapping round trip over the '
-                    'C12 model (http-crate facts as explicit premises request_ok/response_ok/map_ok); the write side over the C14 '
-                    'WriteBuf model under any acceptance script; the RFC reading of the sender layout over the C02 reference reader; '
-                    'the incremental reference reader for every chunking/interleaving (safety and completion); and the end-to-end '
-                    'theorems C01_*_fidelity_reference_reader for the pipeline [C12 mapping, reference field-section coding, C14 '
-                    'writer, reference reader] that the correspondence run executes as its model column.  Still open, as explicit '
-                    'premises of C01_*_fidelity_partial: h3 QPACK stateless round trip (C11) and the FrameStream/RequestStream '
-                    'refinement (C02/C03) in place of the two reference layers')
+    partial_note = ('C01_request_fidelity / C01_response_fidelity are closed and every layer of their pipeline is the model of h3 code '
+                    'owned by another property (C12 header mapping, C11 stateless QPACK, C14 writers, C02+C03 FrameStream and '
+                    'RequestStream); their premises are the http-crate facts request_head_ok / response_head_ok / trailers_ok '
+                    '(every value an application can hold prints to a string the crate parser accepts; at most 24576 field lines; '
+                    'field section below 2^26 bytes) and that the receiving calls have completed (completion itself is C06). '
+                    'Not covered by the theorems, covered by the linked-pair run only: split streams (the split moves the same '
+                    'decoder state to the receive half), the interleaving of the connection drivers and of other streams')
     trusted_extra = [
         'http crate behaviour (Uri/Method/HeaderName/HeaderValue parse and print) enters as the premises request_ok / response_ok / '
         'map_ok of the header-mapping round trip; the linked-pair run exercises the real crate',
         'the linked-pair scheduler of harness/src/bin/c01.rs (seeded choice among enabled actions) and SimQuic pump',
-        'the reference field-section coding and the reference reader (Model/EndToEndRef.v) stand in for h3 qpack and '
-        'FrameStream/RequestStream in the closed end-to-end theorem; the real ones are tied to it only through the '
-        'linked-pair correspondence (end-to-end observations, not wire bytes)',
+        'the component models composed here (Model/Headers.v, HttpCrate.v, QpackStateless.v, WriteBuf.v, FrameEnc.v, FrameDec.v, '
+        'FrameStream.v, RequestStream.v) are tied to the code by their own properties C12, C11, C14, C02, C03 and, end to end, by '
+        'this run: the model column is the composed pipeline of Model/EndToEndH3.v',
     ]
 
     def cases(self, tier, rng):
